@@ -13,6 +13,7 @@ import pymbolic.parser as parsemod
 
 from ..core import check, short
 from ..gen import expr as G
+from ..gen import scale
 from ..mon.trace import HandlerTrace
 from ..ref import normal, refsem
 
@@ -368,6 +369,41 @@ def c_history(ctx, case):
 ATOM = ["a", "b", "c", "d", "1", "2", "0", "x"]
 
 
+def respell(s, how):
+    """The same token sequence written differently: 'dense' puts no blank between two tokens
+    unless both are words (names, numbers, keywords) -- `not-a`, `a and-b`, `a if b else-c`,
+    `(a)if(b)else(c)` are all Python; 'wide' separates all tokens by two blanks / a tab."""
+    import io
+    import tokenize
+    try:
+        toks = [t for t in tokenize.generate_tokens(io.StringIO(s).readline)
+                if t.type not in (tokenize.NEWLINE, tokenize.ENDMARKER, tokenize.NL)]
+    except (tokenize.TokenError, SyntaxError, IndentationError):
+        return None
+    out = ""
+    wordy = lambda t: t.type in (tokenize.NAME, tokenize.NUMBER)  # noqa: E731
+    for i, t in enumerate(toks):
+        if i:
+            if how == "wide":
+                out += "  " if i % 2 else "\t"
+            elif wordy(toks[i - 1]) and wordy(t):
+                out += " "
+            elif toks[i - 1].type == tokenize.NUMBER and t.string == ".":
+                out += " "      # `1 .real`
+        out += t.string
+    return out
+
+
+BIG_LITERALS = ["9223372036854775807", "9223372036854775808", "18446744073709551616",
+                "100000000000000000000", "1000000000000000000", "999999999999999999",
+                "1234567890123456789", "12345678901234567890123456789012345678",
+                str(2**100), str(10**36), str(10**36 + 1), str(3**80), str(2**127 - 1),
+                "1180591620717411303424", "340282366920938463463374607431768211456",
+                "123456789012345678901234567890.5", "0.12345678901234567890123456789",
+                "1e308", "1.7976931348623157e308", "5e-324", "123456789012345678e3",
+                "00" if False else "0", "0.0000000000000000000000001"]
+
+
 def rand_string(rng, d):
     if d <= 0 or rng.random() < 0.25:
         return rng.choice(ATOM)
@@ -440,11 +476,45 @@ def workload(ctx):
                     "o[(), 1]", "o[1, ()]", "o[((), a)]", "f(a, k=((), b))", "f(k=())", "f((a,), b)",
                     "f(((a, b), c))", "f((a, (b, c)))", "f((a, b),)", "o[(a, b), c]", "o[a, (b,)]"]
         strings += LITERALS + POSTFIX
+        # numeric literals of 18 .. 39 digits, alone and as operands
+        for lit in BIG_LITERALS:
+            strings += [lit, f"-{lit}", f"a + {lit}", f"{lit} * b - 1", f"{lit} // 7 % 1000",
+                        f"f({lit}, k={lit})", f"{lit} == {lit}"]
+        # long flat inputs: chains of 9 .. 130 operands of one or mixed operators, wide calls,
+        # wide tuples, deep parenthesis nests
+        names = ["a", "b", "c", "d", "x", "2", "3", "1"]
+        for w in scale.SMALL_WIDTHS + [100, 130]:
+            strings.append(" + ".join(names[i % 8] for i in range(w)))
+            strings.append(" * ".join(names[i % 8] for i in range(w)))
+            strings.append(" - ".join(names[i % 8] for i in range(w)))
+            strings.append(" ".join(names[i % 8] + " " + ["+", "-", "*", "|", "&", "^"][i % 6]
+                                    for i in range(w)) + " a")
+            strings.append(" or ".join(f"{names[i % 5]} < {i}" for i in range(w)))
+            strings.append("f(" + ", ".join(names[i % 8] for i in range(w)) + ")")
+            strings.append("o[" + ", ".join(names[i % 8] for i in range(w)) + "]")
+            if w <= 66:
+                strings.append("(" * w + "a + b" + ")" * w + " * c")
+                strings.append("-" * w + "a")
+                strings.append("a" + "".join(f" if {names[i % 5]} else {i}" for i in range(w)))
+        n_base = len(strings)
         for s in strings:
             if ctx.mine("pairs"):
                 ctx.case(("s", s), _nops(s) >= 2, n=0)
                 ctx.count("exhaustive_skeletons")
                 ctx.run("C07.string", (s, ctx.seed))
+        # every skeleton again in its other spellings (same tokens, different blanks)
+        for s in strings[:n_base]:
+            for how in ("dense", "wide"):
+                s2 = respell(s, how)
+                if s2 is None or s2 == s or not ctx.mine("respelled"):
+                    continue
+                try:
+                    ast.parse(s2, mode="eval")
+                except SyntaxError:
+                    continue
+                ctx.case(("s", s2), _nops(s) >= 2, n=0)
+                ctx.count("respelled:" + how)
+                ctx.run("C07.string", (s2, ctx.seed))
         ctx.set_exhaustive("operator pairs, prefix/binary combinations, conditional placements")
         ctx.sample("skeleton", strings[37])
         ctx.sample("skeleton", strings[412])
@@ -504,6 +574,8 @@ def workload(ctx):
             ctx.run("C07.history", (valid, GARBAGE * ctx.pick(25, 100)))
         for k, v in tr.handlers("parse").items():
             ctx.count("handler:" + k, v)
+    ctx.floor("respelled:dense", 500)
+    ctx.floor("respelled:wide", 500)
     ctx.floor("rejected_between_valid", 500)
     ctx.floor("strings_compared", 3000)
     ctx.floor("exhaustive_skeletons", 500)
